@@ -321,11 +321,13 @@ impl Database {
             // Run recovery through recuperator
             recuperator.run_recovery(&analysis).map_err(box_err)?;
 
-            // Truncate WAL
-            pager.write().truncate_wal().map_err(box_err)?;
-
             // Commit recovery transaction
             tx_ctx.commit_transaction().map_err(box_err)?;
+
+            // Checkpoint: the recovered pages only live in the cache so far. They (and the header that
+            // knows the recovery transaction) must reach the database file before the log that can
+            // rebuild them is emptied; `flush` writes them and truncates the WAL last.
+            pager.write().flush().map_err(box_err)?;
 
             Ok(())
         })?;
